@@ -84,7 +84,7 @@ def bounds(tier):
     }
 
 
-Q2_SLOTS = ["a1.pre1", "a1.eff1", "a1.eff2", "a2.eff1", "a2.eff2", "goal", "init", "metric"]
+Q2_SLOTS = ["a1.pre1", "a1.eff1", "a1.eff2", "a2.eff2", "goal", "metric"]
 
 
 def _inst_plan(tier):
@@ -104,7 +104,7 @@ def _nidx(which):
     if which == "all":
         return list(range(len(NAMINGS)))
     if which == "some":
-        return [0, 2, 4, 7]
+        return [0, 2, 4]
     return [0]
 
 
@@ -460,15 +460,26 @@ def run_histories(acc, only=None):
     alone = {}
     for name, ps in specs:
         io.reset_writer_state()
-        alone[name] = _write(ps)
+        try:
+            alone[name] = _write(ps)
+        except Exception as e:
+            acc.violation("write:raises:%s|hist:%s" % (io.exc_name(e), name), "writing %r raised %s: %s" % (name, io.exc_name(e), e),
+                          {"kind": "hist", "first": name, "second": name})
     for (n1, p1), (n2, p2) in product(specs, specs):
         if only and (n1, n2) != tuple(only):
+            continue
+        if n1 not in alone or n2 not in alone:
             continue
         io.reset_writer_state()
         acc.count("transitions", 2)
         acc.count("states")
-        _write(p1)
-        t2 = _write(p2)
+        try:
+            _write(p1)
+            t2 = _write(p2)
+        except Exception as e:
+            acc.violation("history:raises:%s|%s" % (io.exc_name(e), n2), "writing %r after %r raised %s: %s" % (n2, n1, io.exc_name(e), e),
+                          {"kind": "hist", "first": n1, "second": n2})
+            continue
         acc.count("histories")
         if t2 != alone[n2]:
             acc.count("nontrivial")
